@@ -1148,8 +1148,17 @@ class _Activation:
         tag = 'loop@%s' % cast.node_line(n)
         lmap = {}
         st.loops.append((n, lmap))
+        self._havoc_keys(self, None, keys, calls, st, st0, lmap, tag, 0)
+        return st
+
+    def _havoc_keys(self, act, es, keys, calls, st, st0, lmap, tag, depth):
+        """havoc what the statements `keys`/`calls` were collected from may write.  act/es: activation and state in which
+        their expressions are evaluated (a looked-through helper with its parameters bound; None = this frame, st)"""
+        own = act is self
         for kind_, x in keys:
             if kind_ == 'decl':
+                if not own:
+                    continue               # a helper's locals do not outlive its call
                 key = ('v', self.varname(x))
                 self.clear_var(st, key)
                 st.mem[key] = fresh(tag + ':' + key[1])
@@ -1157,7 +1166,7 @@ class _Activation:
                 lmap[key] = (st.mem[key], None)
                 continue
             try:
-                alts = self.lvalue(x, st, side_effects=False)
+                alts = act.lvalue(x, st if own else es.copy(), side_effects=False)
             except Unsupported:
                 alts = []
             for s_, key in alts:
@@ -1165,6 +1174,8 @@ class _Activation:
                     continue
                 if key in lmap:
                     continue
+                if not own and any(t[0] == 'v' and isinstance(t[1], str) and t[1].startswith(act.prefix) for t in subterms(key)):
+                    continue               # the helper's own variables
                 rl = self.e.record_loads
                 self.e.record_loads = False
                 kt = self.e.types.get(key) or cast.qual_type(x)
@@ -1195,11 +1206,37 @@ class _Activation:
             cn = cast.callee_name(c)
             if cn and (cn in PURE_FUNCTIONS or self.e.is_pure(cn)):
                 continue
+            if cn and depth < 3 and cn not in act.stack and self.e.is_new_helper(cn):
+                # a helper the engine will look through: what it writes is read off its body, with its parameters bound
+                sub = self._bind_helper(act, cn, c, st if own else es)
+                if sub is not None:
+                    act2, es2, keys2, calls2 = sub
+                    self._havoc_keys(act2, es2, keys2, calls2, st, st0, lmap, tag, depth + 1)
+                    continue
             for a in c['inner'][1:]:
-                self.clobber_arg(st, a, tag)
-        return st
+                self.clobber_arg(st, a, tag, act=None if own else act, es=None if own else es)
 
-    def clobber_arg(self, st, argnode, tag):
+    def _bind_helper(self, act, name, call, es):
+        u2, f2 = self.e.find_fn(name)
+        if f2 is None:
+            return None
+        act2 = _Activation(self.e, u2, name, self.out, self.depth + 1, prefix='%s@pre%d:' % (name, next(_uid)))
+        act2.stack = act.stack + (name,)
+        s = es.copy()
+        for pdecl, a in zip(u2.params(name), call['inner'][1:]):
+            try:
+                alts = act.eval(a, es.copy(), side_effects=False)
+            except Unsupported:
+                return None
+            if len(alts) != 1:
+                return None
+            key = ('v', act2.varname(pdecl))
+            self.e.types[key] = cast.qual_type(pdecl)
+            s.mem[key] = alts[0][1]
+        keys, calls = act2.assigned_keys([u2.body(name)], s)
+        return act2, s, keys, calls
+
+    def clobber_arg(self, st, argnode, tag, act=None, es=None):
         """a callee may write through a non-const pointer argument"""
         qt = cast.qual_type(argnode)
         if '*' not in qt and '[' not in qt:
@@ -1208,7 +1245,7 @@ class _Activation:
         if 'const' in pointee.split('*')[-1]:
             return
         try:
-            alts = self.eval(argnode, st.copy(), side_effects=False)
+            alts = (act or self).eval(argnode, (es if es is not None else st).copy(), side_effects=False)
         except Unsupported:
             return
         for _, v in alts:
